@@ -25,7 +25,7 @@ def closure_rule_full():
     body = ('Require Import MV.Properties.C07.liveness_closure_rule_partial.\n'
             'Eval vm_compute in (if closure_rule_full then [1] else [0]).\n')
     body = 'From Coq Require Import List. Import ListNotations.\n' + body
-    rc, out = vlib.coq_eval('C07', 'closure_rule', body, timeout=120)
+    rc, out = vlib.coq_eval('C07', 'closure_rule', body, timeout=600)
     r = vlib.parse_coq_list_of_nat(out) if rc == 0 else None
     return None if not r else bool(r[0])
 
